@@ -13,7 +13,9 @@ CHECKS = {
                   'sorted/min/max/set',
         text='Every ordered pair and triple of every defined TLS version is evaluated against trichotomy, '
              'transitivity, hash/eq consistency and the chain prescribed by the property; this is a complete '
-             'enumeration of the quantifier domain, so for the member table as installed the verdict is exact.',
+             'enumeration of the quantifier domain, so for the member table as installed the verdict is exact. '
+             ' For every member every observer (str, repr, markdown, json, compose, properties, comparisons, copy)'
+             ' is applied before hash, equality and set membership are re-checked against a fresh object.',
         note='Trusts Python comparison dispatch and the TlsVersion table of cryptodatahub as installed in /venv.',
         design='3 (C17)'),
     'C11': dict(
@@ -36,7 +38,11 @@ CHECKS = {
              'proper prefix of their seed encodings and ~1500 (thorough: 40000) seeded mutants each through '
              'parse_immutable/parse_exact_size/parse_mutable; any exception other than the four documented parse '
              'errors is a finding. Sampling: absence of leaks is not established, rare leaks in third-party '
-             'parsers (dateutil, asn1crypto) have a long tail.',
+             'parsers (dateutil, asn1crypto) have a long tail. '
+             ' Added: inflated variants of the accepted seeds (huge numbers, long labels, calendar edges, deep'
+             ' nesting), extreme values in every fixed-width numeric field the parser reads, reference-encoded'
+             ' seeds independent of compose(); the thorough tier adds 32 coverage-guided atheris campaigns with the'
+             ' same oracle inside the target.',
         note='Seed corpus = inputs of the repository unit tests (committed) plus encodings composed from generated '
              'objects; leak identity = exception type + innermost cryptoparser frame.',
         design='3 (C02)'),
@@ -47,7 +53,10 @@ CHECKS = {
         text='For every concrete class ~400 (thorough 8000) buffers derived from valid encodings are parsed through the '
              'three entry points and the outcomes are related (0<=n<=len, in-place variant removes exactly n bytes '
              'and leaves the buffer untouched on failure, exact-size succeeds iff n==len); the ~25 framing-unit '
-             'classes get 6x the budget plus the self-delimiting and declared-length clauses. Sampling.',
+             'classes get 6x the budget plus the self-delimiting and declared-length clauses. Sampling. '
+             ' Seeds include BER long-form / indefinite-length LDAP frames, three-byte-header SSL 2.0 records and'
+             ' reference-encoded messages; the thorough tier adds atheris campaigns with the length clauses as'
+             ' oracle.',
         note='declared() readers are written from the specifications (DESIGN appendix B); structural equality '
              'compares asn1crypto values by DER.',
         design='3 (C03)'),
@@ -58,7 +67,9 @@ CHECKS = {
         text='~400 (thorough 10000) mutants per concrete class plus all seeds; only accepted inputs are cases and the '
              'non-trivial ones are those whose canonical re-serialisation differs from the input. For byte-mutated '
              'texts of the HTTP/TXT families the findings are folded into one family per clause (lenient third-party '
-             'building blocks), precise keys are kept for seeds, grammar variants and all binary classes. Sampling.',
+             'building blocks), precise keys are kept for seeds, grammar variants and all binary classes. Sampling. '
+             ' Seeds include 48 grammar-generated texts per text class and reference-encoded binary messages'
+             ' (independent of compose()); the thorough tier adds atheris campaigns with the canonical-form oracle.',
         note='Equality as in C01; header-field classes are re-parsed with the CRLF item terminator appended.',
         design='3 (C05)'),
     'C01': dict(
@@ -71,7 +82,10 @@ CHECKS = {
              'arguments, boundary integers), plus every accepted corpus input of every concrete class; each is '
              'composed, re-parsed and compared field by field, nested values included. Sampling; the text families '
              '(HTTP headers, TXT policies) are reached through parsed corpus objects only here and through the '
-             'grammar generators of C05/C18.',
+             'grammar generators of C05/C18. '
+             ' Objects reached by editing in place (fields of items inside vectors, a constructor field replaced by'
+             " another instance's value after a first compose) are judged against an equal object rebuilt through"
+             ' the constructors.',
         note='Structural equality defined in vf/core/lib.py; constructor rejections and wire-cannot-carry cases are '
              'counted per class in the evidence.',
         design='3 (C01)'),
@@ -82,7 +96,10 @@ CHECKS = {
                   'edited vector == freshly built vector, compose/parse round trip)',
         text='40 vector classes x 150 (thorough 3000) histories of up to 30 (80) operations including slice and bulk '
              'edits, negative/out-of-range positions and histories that touch both size bounds; refused edits must '
-             'leave the vector unchanged. Sampling of histories; ceilings of 2^24-1 and 2^32-1 are not touched.',
+             'leave the vector unchanged. Sampling of histories; ceilings of 2^24-1 and 2^32-1 are not touched. '
+             ' Initial vectors are handed to the constructor as list / tuple / generator / iterator / map; a'
+             ' history may end with an edit made inside an item (its own field or inner vector), after which prefix'
+             ' and bytes are compared with a freshly built vector.',
         note='Bounds are those declared by get_param(); item sizes are recomputed from the items without the '
              'vector\'s own bookkeeping.',
         design='3 (C12)'),
@@ -93,7 +110,10 @@ CHECKS = {
         text='Observer purity for ~166 classes x 60 (thorough 1500) call sequences plus every parsed corpus object and an '
              'enumerated family of client hellos at the cipher-suite ceiling (the only place where compose can fail '
              'half way); aliasing for every accepted seed of every concrete class through the three entry points; '
-             'default sharing for every attrs class with defaults. Sampling of histories.',
+             'default sharing for every attrs class with defaults. Sampling of histories. '
+             ' A third of the observer histories start from an object edited in place; every history ends with'
+             ' renders under an installed text-encoder hook; the classes of the object must not gain attributes'
+             ' during a history.',
         note='State is the structural dump of vf.core.lib.dump (private fields and the recorded vector size included); '
              'in-place mutation goes through the public container interfaces only.',
         design='3 (C13)'),
@@ -105,7 +125,10 @@ CHECKS = {
         text='~60 (thorough 1500) generated objects per class with a spec strategy, every accepted corpus input and '
              '40 (1000) accepted mutants per concrete class are serialised to JSON and Markdown; any exception, '
              'non-standard JSON or non-text Markdown is a finding; equal objects must give identical output under '
-             'the five relations. Sampling.',
+             'the five relations. Sampling. '
+             ' Cross-process relations: the same work under four hash seeds, and one family of objects serialised'
+             ' in four orders in fresh interpreters; the same object is serialised again after compose() and under'
+             ' an installed / removed text-encoder hook.',
         note='Failures are keyed by the innermost cryptoparser/cryptodatahub frame; mutated X.509 certificates are '
              'outside the generated domain (lazy third-party parsing).',
         design='3 (C14)'),
@@ -127,7 +150,10 @@ CHECKS = {
         text='~40k (thorough ~740k) models of records, alerts, CCS, hellos, certificate messages, certificate requests, '
              'SSL 2.0 messages and every client/server extension layout; compose == reference bytes and '
              'parse(reference bytes) recovers the model through the class, the variant parsers, the extension vectors '
-             'and TlsRecord + subprotocol parser; SCSV markers at arbitrary wire positions.',
+             'and TlsRecord + subprotocol parser; SCSV markers at arbitrary wire positions. '
+             ' compose() is called twice per object, and models with a certificate / key share / distinguished name'
+             ' / responder id are also checked after an in-place edit of the built object against the reference'
+             ' encoding of the edited model.',
         note='The reference owns its own vector floor/ceiling table and derives prefix widths from it; '
              'HelloRetryRequest is not judged (no published layout matches).',
         design='3 (C06)'),
@@ -185,7 +211,11 @@ CHECKS = {
              'one huge value, no separator, separator runs, maximal declared counts with little data, huge digit '
              'strings) and ~6 (thorough 60) generic pumped shapes plus 12 (600) mutants per concrete class; the marginal '
              'number of interpreter steps per added byte must not grow between n..2n and 4n..8n, every input stays '
-             'under 20000 + 6000 steps/byte, frame depth does not grow with n.',
+             'under 20000 + 6000 steps/byte, frame depth does not grow with n. '
+             ' Declared-amount probes: every fixed-width quantity the parser reads from an accepted seed is set to'
+             ' a quarter of and to the whole maximum (with and without data behind it) and the two parses must cost'
+             ' about the same; list shapes exist with repeated items, with distinct items and with each member of'
+             ' the separator set.',
         note='Interpreter-level steps only: C-level copying inside slices is invisible to the meter (stated limit).',
         design='3 (C19)'),
     'C08': dict(
